@@ -157,7 +157,47 @@ fn gen_c15_prompt_then_flood(rng: &mut Rng) -> C15Scenario {
     C15Scenario { run: RunScenario { spec, mode: Mode::All, script, hang_ms: default_hang_ms() }, listener }
 }
 
+/// A task writes as fast as it can while the listener is stopped: the connection fills up, the task's reader inside
+/// monorail gets stuck behind it, the pipe fills up behind the reader - and at that moment the task exits, leaving its
+/// last 64 KiB in the pipe. The listener comes back 2-3 s later. Every line the task wrote must be in the stored log.
+fn gen_c15_exit_behind_stalled_listener(rng: &mut Rng) -> C15Scenario {
+    let mut targets = vec![];
+    let mut cmd_files = vec![];
+    for i in 0..2 {
+        let path = format!("t{:02}", i);
+        cmd_files.push(CmdFile { target: path.clone(), command: "build".into(), rel: WorldSpec::default_cmd_rel(&path, "build"), exec: true, broken: false });
+        targets.push(TargetSpec { path, ..Default::default() });
+    }
+    let spec = WorldSpec { targets, cmd_files, files: vec![], sequences: vec![], max_retained_runs: 2, gitignore: vec![], git: true, lock_host: None, default_ports: 0, omit_max_retained: false, sha256_repo: false, clock_plan: vec![] };
+    let mut script = RunScript::simple(RunOpts { commands: vec!["build".into()], ..Default::default() });
+    let fd = if rng.chance(1, 2) { 1u8 } else { 2 };
+    script.behav.push(Behav { command: "build".into(), target: "t00".into(), outs: vec![
+        OutStep { fd, hex: hex(format!("build@t00 fd{} starting\n", fd).as_bytes()), pause_ms: 0, close: false },
+        // at most 120000 lines (21 MB): far more than a loopback connection buffers
+        OutStep { fd, hex: format!("~120000~{}", hex(format!("build@t00 fd{} line", fd).as_bytes())), pause_ms: 0, close: false },
+    ], code: 0, exit_pause_ms: 0, early_exit: false, hold_pipes_ms: 0, outs_again: vec![] });
+    script.behav.push(Behav { command: "build".into(), target: "t01".into(), outs: vec![
+        OutStep { fd: 1, hex: hex(b"build@t01 fd1 a quiet neighbour\n"), pause_ms: 0, close: false },
+    ], code: 0, exit_pause_ms: 0, early_exit: false, hold_pipes_ms: 0, outs_again: vec![] });
+    // the noisy task goes first and runs to its end before the neighbour is looked at
+    script.strategy = Strategy::Prio;
+    script.prio = vec![("t00".into(), 0), ("t01".into(), 1)];
+    script.sched_seed = rng.next_u64();
+    script.workers = Some(*rng.pick(&[1u32, 2, 4, 16]));
+    script.flush_ms = Some(*rng.pick(&[5u64, 20, 100]));
+    script.rand_seed = Some(rng.next_u64() % 1_000_000);
+    script.lfaults.push(LFault { at: LTrigger::AfterOut { n: 1 }, action: LAction::StopFor { ms: *rng.pick(&[3500u32, 4200, 5000]) } });
+    let listener = Some(ListenerCfg { stdout: true, stderr: true, targets: vec![], commands: vec![] });
+    C15Scenario { run: RunScenario { spec, mode: Mode::All, script, hang_ms: default_hang_ms() }, listener }
+}
+
 fn gen_c15(seed: u64, idx: usize, _tier: Tier) -> C15Scenario {
+    {
+        let mut frng = Rng::new(scenario_seed(seed, "C15-fill", idx));
+        if frng.chance(1, 25) {
+            return gen_c15_exit_behind_stalled_listener(&mut frng);
+        }
+    }
     let mut rng0 = Rng::new(scenario_seed(seed, "C15p", idx));
     if rng0.chance(1, 15) {
         return gen_c15_prompt_then_flood(&mut rng0);
@@ -314,6 +354,13 @@ fn exec_c15(sc_in: &C15Scenario, paired: bool) -> Outcome {
     let w = world_slot.unwrap();
     let mut out = Outcome::default();
     base_trace(&ctx, &mut out);
+    if ctx.trace.filled_lines > 0 {
+        out.fault("task_exits_with_its_pipe_full_behind_a_stalled_listener", 1);
+        out.probe("lines_written_until_the_pipe_stayed_full", ctx.trace.filled_lines);
+        if ctx.trace.fill_hit_limit {
+            out.probe("fill_stopped_at_its_limit_instead_of_a_full_pipe", 1);
+        }
+    }
     let tr = &ctx.trace;
     for (a, n) in &tr.lfaults_fired {
         out.fault(&format!("listener_{:?}", a).to_lowercase(), 1);
@@ -501,8 +548,11 @@ impl Property for C15 {
         let sc = gen_c15(seed, idx, tier);
         // scenarios in which the listener's filter could matter to the plan are always run both ways
         let filter_and_static_failure = sc.listener.as_ref().map(|l| !l.targets.is_empty()).unwrap_or(false) && sc.run.spec.cmd_files.iter().any(|c| !c.exec);
-        let mut v = serde_json::to_value(sc).unwrap();
-        v["paired"] = json!(tier == Tier::Thorough || idx % 4 == 0 || filter_and_static_failure);
+        let mut v = serde_json::to_value(&sc).unwrap();
+        // a task that writes until its pipe is full writes a different amount with and without a listener: such a
+        // run is judged on its own (every line written is stored), not against a twin
+        let fills = sc.run.script.behav.iter().any(|b| b.outs.iter().any(|o| o.hex.starts_with('~')));
+        v["paired"] = json!(!fills && (tier == Tier::Thorough || idx % 4 == 0 || filter_and_static_failure));
         v
     }
     fn execute(&self, v: &Value) -> Outcome {
